@@ -389,4 +389,20 @@ def summarise(crate, body, args=None):
             order.append(nm)
     for i, nm in enumerate(order):
         text = re.sub(r'(?<![A-Za-z0-9_.:$])' + re.escape(nm) + r'(?=°|\[|\.(?!\.)| :=| = )', f'local{i + 1}', text)
+    # names of crate-private structs (also those declared inside a function) are not observable: renaming one, or hoisting a
+    # function-local struct to module level, does not change a summary
+    for nm in _private_struct_names(crate):
+        text = re.sub(r'(?<![A-Za-z0-9_:])' + re.escape(nm) + r'(?=\{)', '_', text)
     return canon_text(text), ev
+
+
+_PRIV_NAMES = {}
+
+
+def _private_struct_names(crate):
+    cid = id(crate)
+    if cid not in _PRIV_NAMES:
+        pub = {p.rsplit('::', 1)[-1] for p, a in crate.adts.items() if str(a.get('vis', '')) == 'Public'}
+        priv = {p.rsplit('::', 1)[-1] for p, a in crate.adts.items() if a.get('kind') == 'Struct' and str(a.get('vis', '')) != 'Public'}
+        _PRIV_NAMES[cid] = (sorted(priv - pub, key=lambda x: -len(x)), crate)
+    return _PRIV_NAMES[cid][0]
